@@ -33,6 +33,15 @@ CLAIMS = {
    note=NOTE_COMMON + "A-LINALG (C12) assumed for fs_diagonalize_hermitian/fs_svd/fs_diagonalize_symmetric: reconstruction Z^dagger diag(m^2) Z, unitarity and ordering of the reported factors "
         "are exactly that assumption applied to the proved matrices; IEEE rounding not covered.",
    technique="symbolic execution of the extracted generated code + z3 NRA against an independent Lagrangian spec; exception/flag effects as ghost state", design='5 C04'),
+ 'C06': dict(
+   text="Relational contracts f(state) == f(flipped state) on the real MSSM functions, proved as rational-function identities for ALL parameter values: every leading-log one-loop term, "
+        "amu1Lapprox with and without resummation, tan_beta_cor, Delta_mu/tau/b, the two-loop fermion/sfermion approximations and their log corrections are invariant under negating "
+        "Mu, M1, M2, M3, A_f, T_f; every sfermion mass matrix keeps trace and determinant, the chargino matrix its singular-value invariants, the neutralino matrix becomes -P Y P (all masses "
+        "invariant); amu1LChi0, amu1LChipm, the photonic and 2L(a) contributions are invariant under the induced change of the mixing matrices (N -> iNP, U_sf -> U_sf diag(1,-1), U -> U s3, V -> -V s3). "
+        "Callee contracts: Iabc, |.|, abs_sqrt are functions of the squares of their arguments (checked on the real bodies).",
+   note=NOTE_COMMON + "That the real diagonalisation routines return the induced mixing matrices for the flipped matrices is A-LINALG (unique up to the phase conventions the functions are shown invariant "
+        "under only for these representatives); loop functions uninterpreted (A-SPECFN); rounding differences (relative 1e-9 in the property) not covered: identities are exact over the reals.",
+   technique="relational symbolic execution of the extracted code on a state and its sign-flipped copy + ring normalisation of the difference", design='5 C06'),
  'C07': dict(
    text="Decoupling as a units (mass-dimension) contract on the real MSSM a_mu, correction and uncertainty functions: the extracted code is interpreted over dimensions (masses 1, squared "
         "masses 2, couplings and mixings 0); every sum, difference, comparison and conditional joins equal dimensions, logarithms and loop functions receive dimensionless arguments, "
